@@ -81,7 +81,10 @@ structure Ctx where
   D : Doc
   env : Ts.Env
   ns : String
+  /-- (definition, name of its result type, the REAL emitted type, closed) -/
   pairs : List (ExecDef × String × Ty)
+  /-- closed `NS.__OperationOutput.<scalar>` per scalar type of the schema -/
+  scalars : List (Name × Ty)
 
 def mkCtx (ts : Sexp) (doc : Sexp) (opf : Sexp) (scf : Sexp) : Except String Ctx := do
   let some items := Gql.Dec.tsDoc ts | throw "bad tsdoc"
@@ -90,45 +93,60 @@ def mkCtx (ts : Sexp) (doc : Sexp) (opf : Sexp) (scf : Sexp) : Except String Ctx
   let some scFile := Ts.Dec.file scf | throw "bad schema tsfile"
   let some (ns, m) := schemaModule opFile | throw "operation file has no `import type * as NS`"
   let env := SelSem.envOf opFile m scFile
-  let pairs := pairReal d (typeStmts opFile)
+  let pairs := (pairReal d (typeStmts opFile)).map fun (x, n, t) => (x, n, globalise env.decls [] [] t)
+  let S : Schema := ⟨items⟩
+  let scalars := (S.typeDefs.filter (·.kind == .scalar)).map fun t =>
+    (t.name, globalise env.decls [] [] (.qref [ns, "__OperationOutput", t.name]))
   if pairs.length != (d.filter fun x => match x with | .imp _ => false | _ => true).length then
     throw "operation file does not have the expected type statements"
-  pure { S := ⟨items⟩, D := d, env := env, ns := ns, pairs := pairs }
+  pure { S := S, D := d, env := env, ns := ns, pairs := pairs, scalars := scalars }
 
 /-- membership fuel: aliases are at most a few levels deep; the nesting depth of the value bounds the rest -/
 def memFuelFor (v : J) : Nat := 2 * v.size + 32
 
-def memReal (c : Ctx) (v : J) (t : Ty) : Bool := Ts.memFuel c.env [] (memFuelFor v) v t
+/-- membership in a closed type of the real files -/
+def memReal (c : Ctx) (v : J) (t : Ty) : Bool := Ts.memG c.env (memFuelFor v) v t
+
+def scalarTy (c : Ctx) (n : Name) : Ty :=
+  match c.scalars.find? (·.1 == n) with
+  | some (_, t) => t
+  | none => .prim "never"
 
 def specCtx (c : Ctx) : Exec.Ctx :=
   { S := c.S, F := Exec.fragsOf c.D,
-    scalar := fun n v => Ts.memFuel c.env [] 64 v (.qref [c.ns, "__OperationOutput", n]),
+    scalar := fun n v => Ts.memG c.env 64 v (scalarTy c n),
     fuel := OpTypes.docSize c.D + 8 }
 
 def scalarSamples (c : Ctx) (n : Name) : List J :=
-  SelSem.samples c.env 16 (globalise c.env.decls [] [] (.qref [c.ns, "__OperationOutput", n]))
+  SelSem.samples c.env 16 (scalarTy c n)
 
-def rootOf (c : Ctx) : ExecDef → Name
-  | .op o => c.S.rootName o.kind
-  | .frag f => f.cond
-  | .imp _ => ""
+/-- runtime object types the selection set of a definition is executed on: the root operation type; for a
+    fragment every object type that matches its type condition -/
+def rootsOf (c : Ctx) : ExecDef → List Name
+  | .op o => [c.S.rootName o.kind]
+  | .frag f => c.S.possibleTypes f.cond
+  | .imp _ => []
 
 def selOf : ExecDef → List Selection
   | .op o => o.sel
   | .frag f => f.sel
   | .imp _ => []
 
-/-- all responses enumerated for a definition: (σ, value) -/
-def enumFor (c : Ctx) (x : ExecDef) (cap : Nat) : List (List (Name × Bool) × J) :=
-  Exec.enumerate (specCtx c) (scalarSamples c) (rootOf c x) (selOf x) cap
+/-- all responses enumerated for a definition: (runtime type, σ, value) -/
+def enumFor (c : Ctx) (x : ExecDef) (cap : Nat) : List (Name × List (Name × Bool) × J) :=
+  let roots := rootsOf c x
+  roots.flatMap fun r =>
+    (Exec.enumerate (specCtx c) (scalarSamples c) r (selOf x) (max 1 (cap / max 1 roots.length))).map fun (σ, v) => (r, σ, v)
 
 def oracleC01 (c : Ctx) (cap : Nat) : Sexp := Id.run do
   let mut n := 0
   for (x, _, t) in c.pairs do
-    for (σ, v) in enumFor c x cap do
+    let mut k := 0
+    for (r, σ, v) in enumFor c x cap do
       n := n + 1
-      -- sanity of the enumerator: every enumerated value is an Exec response
-      if !Exec.execMem (specCtx c) (Exec.sigmaOf σ) (specCtx c).fuel (rootOf c x) (selOf x) v then
+      k := k + 1
+      -- sanity of the enumerator (on a sample): every enumerated value is an Exec response
+      if k % 16 == 1 && !Exec.execMem (specCtx c) (Exec.sigmaOf σ) (specCtx c).fuel r (selOf x) v then
         return .list [.atom "err", .str ("enumerated value is not an Exec response for " ++ defName x), Ts.Enc.j v]
       if !memReal c v t then
         return .list [.atom "counterexample", .list [.atom "op", .str (defName x)], sigmaSexp σ, .list [.atom "value", Ts.Enc.j v]]
@@ -138,12 +156,12 @@ def oracleC02 (c : Ctx) (cap : Nat) : Sexp := Id.run do
   let mut n := 0
   let sc := specCtx c
   for (x, _, t) in c.pairs do
-    let base := (enumFor c x cap).map (·.2)
+    let base := (enumFor c x cap).map (·.2.2)
     let keys := Exec.keysInPlay c.D
     let lits := Exec.litsInPlay c.S
     for (kind, v) in Exec.mutants keys lits base cap do
       n := n + 1
-      if memReal c v t && !Exec.refLocalMem sc sc.fuel (rootOf c x) (selOf x) v then
+      if memReal c v t && !(rootsOf c x).any (fun r => Exec.refLocalMem sc sc.fuel r (selOf x) v) then
         return .list [.atom "counterexample", .list [.atom "op", .str (defName x)], .list [.atom "kind", .str kind],
           .list [.atom "value", Ts.Enc.j v]]
   return Sexp.ok [Sexp.ofNat n]
@@ -169,7 +187,7 @@ def handle : Sexp → Sexp
     match mkCtx ts doc opf scf, cap.nat? with
     | .ok c, some cap =>
       .list (.atom "values" :: c.pairs.map fun (x, _, _) =>
-        .list (.atom "op" :: .str (defName x) :: (enumFor c x cap).map fun (σ, v) => .list [sigmaSexp σ, Ts.Enc.j v]))
+        .list (.atom "op" :: .str (defName x) :: (enumFor c x cap).map fun (r, σ, v) => .list [.str r, sigmaSexp σ, Ts.Enc.j v]))
     | .error e, _ => Sexp.err e
     | _, none => Sexp.err "bad cap"
   | .list [.atom "flush"] => .list [.atom "flushed"]
